@@ -147,7 +147,7 @@ def replay(ctx, path):
             for rule in rules:
                 V.report(ctx, rule, r2, "%s acted on a signed request whose timestamp was %d s old" % (r2["ep"], r2["age2"]), {"kind": "replay", "record": r2})
         print(open(robs).read())
-        return V.finish(ctx, RULE)
+        return V.finish(ctx, RULE_TEXT)
     one = os.path.join(ctx.scratch, "one.jsonl")
     open(one, "w").write(json.dumps({"c": rec["c"]}) + "\n")
     obs = os.path.join(ctx.scratch, "obs.ndjson")
